@@ -106,6 +106,7 @@ func cmdFunc(args []string) {
 	tier := fs.String("tier", "quick", "")
 	safety := fs.Bool("safety", true, "")
 	dump := fs.Bool("dump", false, "print failing queries")
+	keep := fs.String("keep", "", "directory to keep non-discharged queries in")
 	fs.Parse(args)
 	s, err := openSession(*repo, *vdir, *tier, 0)
 	if err != nil {
@@ -160,10 +161,15 @@ func cmdFunc(args []string) {
 				if *dump {
 					fmt.Println(s.m.queryOf[o])
 				}
+				if *keep != "" {
+					os.MkdirAll(*keep, 0o755)
+					os.WriteFile(filepath.Join(*keep, sanitize(fmt.Sprintf("%s-p%d", o.Name(), o.Path))+".smt2"), []byte(s.m.queryOf[o]), 0o644)
+				}
 			}
 		}
 		fmt.Printf("   summary: %v\n", cnt)
 	}
+	s.smt.cleanup()
 	if bad > 0 {
 		os.Exit(1)
 	}
